@@ -12,7 +12,7 @@ use adsb_deku::{Altitude, CPRFormat, Frame, DF, ICAO};
 use rsadsb_common::{Added, AirplaneState, Airplanes};
 use simcore::{short_loc, take_panic, Fnv, Outcome};
 
-use super::{TEv, TScenario};
+use super::{expand, TEv, TScenario};
 
 pub const BASE_EPOCH_S: u64 = 1_700_000_000;
 
@@ -232,9 +232,13 @@ fn run(sc: &TScenario, mask: Mask, rx: (f64, f64), out: &mut Outcome, h: &mut Fn
     // for the isolation replay: per address the indices of the events filed under it
     let mut filed: BTreeMap<Addr, Vec<usize>> = BTreeMap::new();
 
-    for (idx, ev) in sc.events.iter().enumerate() {
+    let events = expand(&sc.events);
+    // very long runs: full Debug renderings of every record around every event are unaffordable;
+    // frames are judged on keys, counts and the touched record, expiry calls in full
+    let light = events.len() > 3000;
+    for (idx, ev) in events.iter().enumerate() {
         let t = match ev {
-            TEv::Frame { t, .. } | TEv::Prune { t, .. } => *t,
+            TEv::Frame { t, .. } | TEv::Prune { t, .. } | TEv::Burst { t, .. } => *t,
         };
         if let Some(p) = prev_t {
             if t < p {
@@ -276,9 +280,9 @@ fn run(sc: &TScenario, mask: Mask, rx: (f64, f64), out: &mut Outcome, h: &mut Fn
                 let cls = classify(&df);
                 // C14's checks read the records directly; the full Debug rendering of every record
                 // around every event is only needed by the other models
-                let before = if need_snap { snap(&tr) } else { snap_keys(&tr) };
+                let before = if need_snap && !light { snap(&tr) } else { snap_keys(&tr) };
                 let ret = tr.action(frame, rx, sc.max_range);
-                let after = if need_snap { snap(&tr) } else { snap_keys(&tr) };
+                let after = if need_snap && !light { snap(&tr) } else { snap_keys(&tr) };
                 h.str(hex);
                 h.u64(t);
                 h.u64(u64::from(ret == Added::Yes));
@@ -380,7 +384,23 @@ fn run(sc: &TScenario, mask: Mask, rx: (f64, f64), out: &mut Outcome, h: &mut Fn
                     }
                 }
                 if mask.c12 {
-                    check_c12_accounting(idx, &tr, &m12, out);
+                    if !light || idx % 256 == 0 || idx + 1 == events.len() {
+                        check_c12_accounting(idx, &tr, &m12, out);
+                    } else if let Cls::Es { addr, .. } = &cls {
+                        // light mode: the touched record and the size of the set
+                        let got = tr.get(ICAO(*addr)).map(|s| s.num_messages);
+                        if got != m12.get(addr).copied() || tr.len() != m12.len() {
+                            check_c12_accounting(idx, &tr, &m12, out);
+                        }
+                    }
+                    if tr.len() > 4096 {
+                        out.probe("more_than_4096_tracked_at_once");
+                    }
+                    if let Cls::Es { addr, .. } = &cls {
+                        if m12.get(addr).copied().unwrap_or(0) >= 100_000 {
+                            out.probe("contact_with_100000_messages");
+                        }
+                    }
                 }
                 if mask.c14 {
                     check_c14_views(idx, &tr, out, idx % 64 == 63);
@@ -389,10 +409,12 @@ fn run(sc: &TScenario, mask: Mask, rx: (f64, f64), out: &mut Outcome, h: &mut Fn
                     }
                 }
             }
+            TEv::Burst { .. } => {}
             TEv::Prune { secs, .. } => {
-                let before = if need_snap { snap(&tr) } else { snap_keys(&tr) };
+                let full = need_snap && (!light || tr.len() <= 64);
+                let before = if full { snap(&tr) } else { snap_keys(&tr) };
                 tr.prune(*secs);
-                let after = if need_snap { snap(&tr) } else { snap_keys(&tr) };
+                let after = if full { snap(&tr) } else { snap_keys(&tr) };
                 h.str("prune");
                 h.u64(t);
                 h.u64(*secs);
@@ -427,7 +449,9 @@ fn run(sc: &TScenario, mask: Mask, rx: (f64, f64), out: &mut Outcome, h: &mut Fn
                     check_c14_tracks_snapshot(idx, &before, &after, out);
                 }
                 if mask.c15 {
-                    for (k, r) in before.keys.iter().zip(before.recs.iter()) {
+                    let empty = String::new();
+                    for (ki, k) in before.keys.iter().enumerate() {
+                        let r = before.recs.get(ki).unwrap_or(&empty);
                         let lh = *last_heard.get(k).unwrap_or(&0);
                         let survived = after.keys.contains(k);
                         if t < lh {
@@ -450,7 +474,7 @@ fn run(sc: &TScenario, mask: Mask, rx: (f64, f64), out: &mut Outcome, h: &mut Fn
                                 );
                             }
                         }
-                        if survived {
+                        if survived && !after.recs.is_empty() {
                             let j = after.keys.iter().position(|x| x == k).unwrap();
                             if &after.recs[j] != r {
                                 out.violate("C15:survivor-record-changed", format!("event #{idx} prune({secs}): record of survivor {} changed", hexaddr(k)));
@@ -476,10 +500,10 @@ fn run(sc: &TScenario, mask: Mask, rx: (f64, f64), out: &mut Outcome, h: &mut Fn
         }
     }
     if out.violation.is_none() && mask.c14 {
-        check_c14_tracks(sc.events.len(), &tr, &m14, out);
+        check_c14_tracks(events.len(), &tr, &m14, out);
     }
-    if out.violation.is_none() && mask.c12 {
-        isolation_replay(sc, rx, &tr, &filed, out);
+    if out.violation.is_none() && mask.c12 && filed.len() <= 64 {
+        isolation_replay(&events, sc.max_range, rx, &tr, &filed, out);
     }
     if ever_seen.len() >= 100 {
         out.probe("more_than_100_distinct_addresses");
@@ -519,7 +543,7 @@ fn check_c13(idx: usize, hex: &str, addr: &Addr, me: &ME, rx: (f64, f64), max_ra
         _ => {
             // any other frame must leave the position record alone
             let now = format!("{c:?}");
-            if was_tracked {
+            if was_tracked && !before.coords.is_empty() {
                 let j = before.keys.iter().position(|k| k == addr).unwrap();
                 if before.coords[j] != now {
                     out.violate("C13:non-position-frame-changed-position-record", format!("event #{idx} {hex}: a non-position frame changed the position record of {}\nnow {now}", hexaddr(addr)));
@@ -816,7 +840,7 @@ fn check_c14_tracks_snapshot(_idx: usize, _before: &Snap, _after: &Snap, _out: &
 
 /// Metamorphic isolation check: replaying only the frames filed under one address (same virtual
 /// times, same expiry calls, same receiver) into a fresh tracker must give the identical record.
-fn isolation_replay(sc: &TScenario, rx: (f64, f64), tr: &Airplanes, filed: &BTreeMap<Addr, Vec<usize>>, out: &mut Outcome) {
+fn isolation_replay(events: &[TEv], max_range: f64, rx: (f64, f64), tr: &Airplanes, filed: &BTreeMap<Addr, Vec<usize>>, out: &mut Outcome) {
     if filed.len() < 2 {
         return;
     }
@@ -824,8 +848,9 @@ fn isolation_replay(sc: &TScenario, rx: (f64, f64), tr: &Airplanes, filed: &BTre
     for (addr, idxs) in filed {
         let mut solo = Airplanes::new();
         let mut it = idxs.iter().peekable();
-        for (i, ev) in sc.events.iter().enumerate() {
+        for (i, ev) in events.iter().enumerate() {
             match ev {
+                TEv::Burst { .. } => {}
                 TEv::Prune { t, secs } => {
                     rsadsb_common::verif_clock::set(vt(*t));
                     solo.prune(*secs);
@@ -835,7 +860,7 @@ fn isolation_replay(sc: &TScenario, rx: (f64, f64), tr: &Airplanes, filed: &BTre
                         it.next();
                         rsadsb_common::verif_clock::set(vt(*t));
                         if let Ok(f) = Frame::from_bytes(&wire::unhex(hex)) {
-                            let _ = solo.action(f, rx, sc.max_range);
+                            let _ = solo.action(f, rx, max_range);
                         }
                     }
                 }
